@@ -33,8 +33,9 @@ ASSUMPTIONS = [
     "node power state and terminal service state are read from the objects (operating_state), not modelled",
     "which session a send_remote_command / remote_logoff to an IP address uses is read from the client terminal's "
     "connection table (Terminal._get_connection_from_ip, read-only): that identifies 'that session' of the property",
-    "account operations (add / disable / change-password) update the model from their response status; the property "
-    "constrains logins, commands and the last-admin rule, not those responses",
+    "disable / change-password update the model from their response status; add-user of a NEW name likewise, but for an "
+    "EXISTING name (enabled or disabled) the model is authoritative: user names are unique, so the account set and that "
+    "account's password / disabled / admin flags must be unchanged afterwards, whatever the response says",
     "inactivity time-out convention: a session whose last activity is fewer than T steps ago must be open, more than T "
     "steps ago must be closed; exactly T steps ago either is accepted (the docs only say 'number of steps before a "
     "remote session times out')",
@@ -329,13 +330,35 @@ def run_case(case: Dict) -> CaseResult:
 
         if k == "add_user":
             _, t, user, pw, admin = op
+            um = nodes[t].user_manager
+            existed = user in m.users[t]
+
+            def snap():
+                return {nm: (u.password, bool(u.disabled), bool(u.is_admin)) for nm, u in um.users.items()}
+
+            before = snap()
             ok, resp = apply(k, form("add_user", node=host(t), user=user, password=pw, admin=bool(admin)), when)
             if not ok:
                 break
-            if status_of(resp) == "success":
-                if user in m.users[t]:
-                    res.label("add_user:existing-succeeded")
+            if existed:
+                # the model is authoritative: user names are unique, add-user of an existing name (enabled OR disabled)
+                # must leave the account set and that account's password / disabled / admin flags as they were,
+                # whatever the response says -- otherwise a disabled account is revived with a password of the caller's
+                # choice and "a login succeeds only with the current password of an existing, enabled account" is void
+                after = snap()
+                state = "disabled" if m.users[t][user]["disabled"] else "enabled"
+                res.label(f"add_user:existing-{state}")
+                if after != before:
+                    res.violate(
+                        f"add-user-existing-name-changed-account:{state}",
+                        f"{when}: {user!r} already exists on {host(t)} ({state}); accounts (password, disabled, admin) "
+                        f"{before} -> {after}; response {status_of(resp)}",
+                    )
+                elif status_of(resp) == "success":
+                    res.label("add_user:existing-success-response-no-change")
+            elif status_of(resp) == "success":
                 m.users[t][user] = {"pw": pw, "disabled": False, "admin": bool(admin)}
+                res.label("add_user:new")
             reconcile(k, when, {})
             continue
 
@@ -610,6 +633,22 @@ EXH_EXTRA = [  # thorough only
 ]
 
 
+# accounts block: bob (password admin1, not admin) is declared on h1; re-adding existing names (enabled / disabled),
+# then logging in / running a local command with the password the re-add tried to set
+ACC_ALPHABET = [
+    ["add_user", 1, "bob", "admin12", False],
+    ["add_user", 1, "bob", "admin12", True],
+    ["add_user", 1, "admin", "admin12", True],
+    ["disable", 1, "bob"],
+    ["disable", 1, "admin"],
+    ["login", 0, 1, "bob", "@cur"],
+    ["login", 0, 1, "bob", "admin12"],
+    ["login", 0, 1, "admin", "admin12"],
+    ["local", 1, "bob", "admin12"],
+    ["cmd", 0, 1],
+]
+
+
 def exhaustive_plan(tier: str):
     alphabet = EXH_ALPHABET if tier == "quick" else EXH_ALPHABET + EXH_EXTRA
     depth = 3 if tier == "quick" else 4
@@ -622,6 +661,8 @@ def exhaustive_cases(tier: str, excl: List[str]):
         for seq in itertools.product(alphabet, repeat=depth):
             yield {"n": 2, "T": 3, "dur": 0, "bob": [], "ops": [list(o) for o in pre] + [list(o) for o in seq],
                    "excl": list(excl)}
+    for seq in itertools.product(ACC_ALPHABET, repeat=3 if tier == "quick" else 4):
+        yield {"n": 2, "T": 3, "dur": 0, "bob": [None, False], "ops": [list(o) for o in seq], "excl": list(excl)}
 
 
 def worker(ctx: Ctx):
@@ -632,7 +673,9 @@ def worker(ctx: Ctx):
     ctx.extra["exhaustive_domain"] = (
         f"n=2, T=3, dur=0, {len(alphabet)}-symbol alphabet: all sequences of depth {plan[0][1]} after the prefixes "
         f"(none) and (2 logins of admin h0->h1), and of depth {plan[2][1]} after the prefixes (3 logins) and (a session "
-        f"timed out while the client terminal was stopped, leaving a stale client handle)"
+        f"timed out while the client terminal was stopped, leaving a stale client handle); plus, with a second account "
+        f"declared on h1, all sequences of depth {plan[0][1]} over a {len(ACC_ALPHABET)}-symbol accounts alphabet (re-add of "
+        f"existing enabled / disabled names, disable, logins and a local command with the re-add's password)"
     )
     nrand = 220 if ctx.tier == "quick" else 2500
     hyp_run(ctx, case_strategy(30, excl), run_case, nrand)
